@@ -116,7 +116,8 @@ def verdicts(hist):
         sr = hist.sr(sid)
         out[sid] = (sr.over[2] if sr.over else None,
                     sr.value if sr.over and sr.over[2] == 'ret' else
-                    type(sr.value).__name__ if sr.over else None,
+                    (type(sr.value).__name__, getattr(sr.value, 'nid', None))
+                    if sr.over else None,
                     bool(sr.fto), bool(sr.fc), sr.why)
     return out
 
